@@ -1,5 +1,6 @@
 import CvProps.RealInst
 import CvProps.C08Lemmas
+import CvProps.C08b
 /-!
 # C08 — bias contributions superpose; multiple-time-step scaling conserves impulse
 
